@@ -534,6 +534,15 @@ fn check_c11() {
         (2, vec![w(&[1, 1, 1]), w(&[2, 2, 2]), w(&[1, 2, -1, -2])], vec![w(&[-1, 2])], 3),             // Z3 x Z3, H = <a^-1 b>
         (3, vec![w(&[1, 1]), w(&[2, 2]), w(&[3, 3]), w(&[1, 2, 1, 2, 1, 2]), w(&[2, 3, 2, 3, 2, 3]), w(&[1, 3, 1, 3])], vec![w(&[1]), w(&[2])], 4),   // S4 / S3
     ];
+    // the same groups with a redundant first generator t (relator `t`, every other generator shifted by one), the relator placed first or last
+    let shift = |x: &FreeWord| FreeWord::from(x.iter().map(|&g| if g > 0 { g + 1 } else { g - 1 }).collect::<Vec<isize>>());
+    let mut groups = groups;
+    for (n, rels, sub, index) in groups.clone() {
+        let mut first = vec![w(&[1])]; first.extend(rels.iter().map(shift));
+        let mut last: Vec<FreeWord> = rels.iter().map(shift).collect(); last.push(w(&[1])); last.push(w(&[1, 2, -1, -2]));
+        groups.push((n + 1, first, sub.iter().map(shift).collect(), index));
+        groups.push((n + 1, last, sub.iter().map(shift).collect(), index));
+    }
     for (n, rels, sub, index) in groups {
         let txt = format!("gens={} rels={:?} sub={:?}", n, rels.iter().map(letters).collect::<Vec<_>>(), sub.iter().map(letters).collect::<Vec<_>>());
         let t = match quiet(|| coset_table(n, &rels, &sub)) { Ok(t) => t, Err(e) => { falsified("coset_table", txt, format!("panic {}", e)); continue; } };
@@ -743,12 +752,139 @@ fn check_c11_random() {
     }
 }
 
+// EXHAUSTIVE over all subgroups of S4 = [3,3] generated by one or two words of length <= 3 (inverse letters included): index against the
+// brute-force closure in the faithful permutation representation, relators at every row, subgroup generators at row 0
+fn check_c11_exhaustive() {
+    let w = |v: &[isize]| FreeWord::from(v.to_vec());
+    let n = 4usize; let ng = 3usize;
+    // two orders of the same relator set (the enumeration's course depends on it)
+    let mut rels_a = vec![];
+    for i in 1..=ng as isize { rels_a.push(w(&[i, i])); }
+    for i in 1..=ng as isize { for j in (i + 1)..=ng as isize { if j == i + 1 { rels_a.push(w(&[i, j, i, j, i, j])); } else { rels_a.push(w(&[i, j, i, j])); } } }
+    let mut rels_b = vec![];
+    for i in 1..=ng as isize { rels_b.push(w(&[i, i])); for j in (i + 1)..=ng as isize { if j == i + 1 { rels_b.push(w(&[i, j, i, j, i, j])); } else { rels_b.push(w(&[i, j, i, j])); } } }
+    let gen_perm = |g: isize| -> Vec<usize> { let k = (g.abs() - 1) as usize; let mut p: Vec<usize> = (0..n).collect(); p.swap(k, k + 1); p };
+    let id: Vec<usize> = (0..n).collect();
+    let words: Vec<Vec<isize>> = all_words(ng as isize, 3).into_iter().filter(|v| !v.is_empty()).collect();
+    let perms: Vec<Vec<usize>> = words.iter().map(|v| v.iter().fold(id.clone(), |acc, &g| perm_mul(&acc, &gen_perm(g)))).collect();
+    let check = |sub: Vec<FreeWord>, hg: Vec<&Vec<usize>>| {
+        let mut elems: BTreeSet<Vec<usize>> = BTreeSet::new(); elems.insert(id.clone());
+        let mut stack = vec![id.clone()];
+        while let Some(x) = stack.pop() { for h in &hg { let y = perm_mul(&x, h); if elems.insert(y.clone()) { stack.push(y); } } }
+        let index = 24 / elems.len();
+        for rels in [&rels_a, &rels_b] {
+        let txt = format!("S4 rels={:?} sub={:?}", rels.iter().map(letters).collect::<Vec<_>>(), sub.iter().map(letters).collect::<Vec<_>>());
+        match quiet(|| coset_table(ng, rels, &sub)) {
+            Err(e) => falsified("coset_table", txt, format!("panic {}", e)),
+            Ok(t) => {
+                if t.len() != index { falsified("coset_table", txt.clone(), format!("{} rows, index is {}", t.len(), index)); return; }
+                for s in &sub { if trace(&t, s) != Some(0) { falsified("coset_table", txt.clone(), format!("subgroup generator {:?} does not fix row 0", letters(s))); return; } }
+                for r in 0..t.len() { for rel in rels.iter() { let mut x = Some(r); for &g in rel.iter() { x = x.and_then(|y| t.get(y, g)); } if x != Some(r) { falsified("coset_table", txt.clone(), format!("relator {:?} traced from row {} ends in {:?}", letters(rel), r, x)); return; } } }
+            }
+        }
+        }
+    };
+    for a in 0..words.len() {
+        check(vec![w(&words[a])], vec![&perms[a]]);
+        for b in 0..words.len() { if a == b || words[a].len() + words[b].len() < 5 { continue; } check(vec![w(&words[a]), w(&words[b])], vec![&perms[a], &perms[b]]); }
+    }
+}
+
+// "exactly one entry per conjugacy class of subgroups of index at most k": the classes of index n correspond to the transitive actions of the
+// group on n points up to relabelling; counted here by brute force over all tuples of permutations that satisfy the relators (the presentation
+// is the library's own fundamental_group(); every cover is checked to be a genuine covering separately, in check_c05_covers)
+fn all_perms(n: usize) -> Vec<Vec<usize>> {
+    let mut out = vec![]; let mut p: Vec<usize> = (0..n).collect();
+    fn rec(k: usize, p: &mut Vec<usize>, out: &mut Vec<Vec<usize>>) { if k == p.len() { out.push(p.clone()); return; } for i in k..p.len() { p.swap(k, i); rec(k + 1, p, out); p.swap(k, i); } }
+    rec(0, &mut p, &mut out); out
+}
+fn count_transitive_actions(ng: usize, rels: &[Vec<isize>], n: usize) -> usize {
+    let perms = all_perms(n);
+    let inv = |p: &Vec<usize>| { let mut r = vec![0; p.len()]; for (i, &x) in p.iter().enumerate() { r[x] = i; } r };
+    let mut classes: BTreeSet<Vec<Vec<usize>>> = BTreeSet::new();
+    let holds = |asg: &Vec<usize>, rel: &Vec<isize>| -> bool {
+        (0..n).all(|x| { let mut y = x; for &g in rel { let p = &perms[asg[(g.abs() - 1) as usize]]; y = if g > 0 { p[y] } else { inv(p)[y] }; } y == x })
+    };
+    let mut stack: Vec<Vec<usize>> = vec![vec![]];
+    while let Some(asg) = stack.pop() {
+        if asg.len() == ng {
+            let mut seen = vec![false; n]; seen[0] = true; let mut st = vec![0usize];
+            while let Some(x) = st.pop() { for &a in &asg { for y in [perms[a][x], inv(&perms[a])[x]] { if !seen[y] { seen[y] = true; st.push(y); } } } }
+            if seen.iter().any(|b| !b) { continue; }
+            let canon = perms.iter().map(|s| { let si = inv(s); asg.iter().map(|&a| (0..n).map(|x| s[perms[a][si[x]]]).collect::<Vec<usize>>()).collect::<Vec<_>>() }).min().unwrap();
+            classes.insert(canon);
+            continue;
+        }
+        for c in 0..perms.len() {
+            let mut next = asg.clone(); next.push(c);
+            let g = next.len() as isize;
+            if rels.iter().all(|r| r.iter().map(|x| x.abs()).max().unwrap_or(0) != g || holds(&next, r)) { stack.push(next); }
+        }
+    }
+    classes.len()
+}
+fn check_c05_count() {
+    let mut bases: Vec<PartialDSym> = vec![];
+    for s in ["<1.1:1:1,1,1:4,4>", "<1.1:1:1,1,1:3,6>", "<1.1:2:2,1 2,1 2:6,4>", "<1.1:2:2,2,2:4,3>", "<1.1:4:2 4,3 4,4 3:4,4>", "<1.1:2:1 2,1 2,2:3 6,4>",
+              "<1.1:8:2 4 6 8,8 3 5 7,6 5 8 7:4,4>", "<1.1:3:1 2 3,1 3,2 3:6 4,3>", "<1.1:1 3:1,1,1,1:4,3,4>"] {
+        if let Ok(ds) = s.parse::<PartialDSym>() { bases.push(ds); }
+    }
+    for ds in corpus() { if ds.is_complete() && ds.size() <= 6 && ds.dim() == 2 && reach(&ds, &[0, 1, 2], 1).len() == ds.size() { bases.push(ds); } }
+    for base in bases {
+        let g = match quiet(|| rust_dsymbols::fundamental_group::fundamental_group(&base)) { Ok(g) => g, Err(_) => continue };
+        let ng = g.nr_generators();
+        let rels: Vec<Vec<isize>> = g.relators.iter().map(letters).collect();
+        for k in 1..=4usize {
+            if (k == 4 && ng > 4) || (k == 3 && ng > 6) || ng > 8 { continue; }
+            let expected: usize = (1..=k).map(|n| count_transitive_actions(ng, &rels, n)).sum();
+            match quiet(|| rust_dsymbols::covers::covers(&base, k)) {
+                Err(e) => falsified("covers", format!("covers({}, {})", base, k), format!("panic {}", e)),
+                Ok(cs) => if std::env::var("FALS_DEBUG").is_ok() { eprintln!("covers({}, {}): {} covers, oracle {} (ng={})", base, k, cs.len(), expected, ng); } else if cs.len() != expected { falsified("covers", format!("covers({}, {})", base, k), format!("{} covers, but the fundamental group has {} conjugacy classes of subgroups of index <= {}", cs.len(), expected, k)); },
+            }
+        }
+    }
+}
+
+// THOROUGH tier only: every 2D symbol the crate's own generator produces up to 8 chambers (any symbol is a legitimate input, so the
+// generator's completeness is not relied upon), sheet bound 4: every listed cover is a complete connected covering of the base, and
+// (where the group has at most 5 generators) the list has one entry per conjugacy class of subgroups
+fn thorough() -> bool { std::env::var("VERIF_TIER").map_or(false, |t| t == "thorough") }
+fn check_c05_sweep() {
+    use rust_dsymbols::generators::dset_generators::DSets;
+    use rust_dsymbols::generators::dsym_generators::{DSyms, Geometries};
+    let max_size = std::env::var("FALS_MAX_SIZE").ok().and_then(|s| s.parse().ok()).unwrap_or(8usize);
+    let mut n = 0usize;
+    for dset in DSets::new(2, max_size) { for base in DSyms::new(&dset, Geometries::All) {
+        n += 1;
+        let k = 4usize;
+        let g = match quiet(|| rust_dsymbols::fundamental_group::fundamental_group(&base)) { Ok(g) => g, Err(_) => continue };
+        match quiet(|| rust_dsymbols::covers::covers(&base, k)) {
+            Err(e) => falsified("covers", format!("covers({}, {})", base, k), format!("panic {}", e)),
+            Ok(cs) => {
+                for c in &cs {
+                    let txt = format!("covers({}, {}) -> {}", base, k, c);
+                    if !c.is_complete() || reach(c, &[0, 1, 2], 1).len() != c.size() { falsified("covers", txt.clone(), "not complete and connected".into()); }
+                    if c.size() % base.size() != 0 || c.size() / base.size() > k { falsified("covers", txt.clone(), format!("{} chambers over a base of {}", c.size(), base.size())); }
+                    if (1..=base.size()).all(|img| c.morphism(&base, img).map_or(true, |m| valid_morphism(c, &base, &m).is_some() || m.iter().skip(1).any(|&x| x == 0))) { falsified("covers", txt.clone(), "does not map onto the base by a morphism".into()); }
+                }
+                let ng = g.nr_generators();
+                if ng <= 5 {
+                    let rels: Vec<Vec<isize>> = g.relators.iter().map(letters).collect();
+                    let expected: usize = (1..=k).map(|n| count_transitive_actions(ng, &rels, n)).sum();
+                    if cs.len() != expected { falsified("covers", format!("covers({}, {})", base, k), format!("{} covers, but the fundamental group has {} conjugacy classes of subgroups of index <= {}", cs.len(), expected, k)); }
+                }
+            }
+        }
+    } }
+    eprintln!("swept {} symbols", n);
+}
+
 fn main() {
     let prop = std::env::args().nth(1).unwrap_or_default();
     std::panic::set_hook(Box::new(|_| {}));
     match prop.as_str() {
-        "C01" => check_c01(), "C02" => { check_c02(); check_c02_graph(); check_c02_plain_r(); }, "C04" => { check_c04(); check_c04_minimal(); }, "C05" => { check_c05(); check_c05_covers(); },
-        "C10" => check_c10(), "C11" => { check_c11(); check_c11_random(); }, "C18" => { check_c18(); check_c18_exact(); check_c18_modular(); }, "C20" => { check_c20(); check_c20_unions(); },
+        "C01" => check_c01(), "C02" => { check_c02(); check_c02_graph(); check_c02_plain_r(); }, "C04" => { check_c04(); check_c04_minimal(); }, "C05" => { check_c05(); check_c05_covers(); check_c05_count(); if thorough() { check_c05_sweep(); } },
+        "C10" => check_c10(), "C11" => { check_c11(); check_c11_random(); check_c11_exhaustive(); }, "C18" => { check_c18(); check_c18_exact(); check_c18_modular(); }, "C20" => { check_c20(); check_c20_unions(); },
         _ => { eprintln!("unknown property"); std::process::exit(2); }
     }
     unsafe { println!("falsifier finished: {} discrepancies", COUNT); }
